@@ -22,6 +22,8 @@ structure BInv (sch : Schema) (b : C03.State) : Prop where
   rolesNonEmpty : ∀ id e, b.ents.lookup id = some e → [] ∉ vRoles sch e
   idsNonEmpty : b.ents.lookup [] = none
   entsBucket : ∀ id e, b.ents.lookup id = some e → b.hasEnts = true
+  /-- every indexed unique value fits bbolt's key limit -/
+  keysFit : ∀ id e, b.ents.lookup id = some e → (vName sch e).length ≤ maxKeySize ∧ (vAlias sch e).length ≤ maxKeySize
 
 /-- … and: child data only inside an existing entity bucket -/
 structure Inv (sch : Schema) (s : State) : Prop where
@@ -170,6 +172,39 @@ theorem uniqueAfter_char {E : Type} {f : E → Bytes} {ents : Map Id E} {idx : M
       · exact Or.inl ⟨h1, h3, h2⟩
       · exact Or.inr h1
 
+/-- the same with bbolt's key limit: success also says the value fits; a value that does not fit is
+    one more reason to fail -/
+theorem uniqueAfterK_char {E : Type} {f : E → Bytes} {ents : Map Id E} {idx : Map Bytes Id} {id : Id} {c : Bool}
+    {cap : Bytes} {nullable : Bool} (e : E) (hui : UI f ents idx) (hs : UShape f ents id c cap)
+    (hne : nullable = false → ∀ old, ents.lookup id = some old → f old ≠ [])
+    (hfit : ∀ old, ents.lookup id = some old → (f old).length ≤ maxKeySize) :
+    match uniqueAfterK c nullable cap (f e) id idx with
+    | .ok idx' => (UI f (ents.insert id e) idx' ∧ (nullable = false → f e ≠ []) ∧
+        ¬ (f e ≠ [] ∧ HeldByOther f ents id (f e))) ∧ (f e).length ≤ maxKeySize
+    | .error x => ((x = .nullNotAllowed ∧ nullable = false ∧ f e = []) ∨ (x = .dup ∧ f e ≠ [] ∧ HeldByOther f ents id (f e))) ∨
+        (x = .other ∧ (f e).length > maxKeySize) := by
+  have hc := uniqueAfter_char e hui hs hne
+  unfold uniqueAfterK
+  by_cases hsc : (!c && cap == f e) = true
+  · simp only [hsc, if_true]
+    have hu : uniqueAfter c nullable cap (f e) id idx = .ok idx := by unfold uniqueAfter; simp [hsc]
+    rw [hu] at hc
+    refine ⟨hc, ?_⟩
+    cases hs with
+    | fresh h => simp at hsc
+    | recreate old h => simp at hsc
+    | update old hold =>
+      have : f old = f e := by simpa using hsc
+      rw [← this]; exact hfit old hold
+  · simp only [hsc, Bool.false_eq_true, if_false]
+    cases h : uniqueAfter c nullable cap (f e) id idx with
+    | error x => rw [h] at hc; exact Or.inl hc
+    | ok idx' =>
+      rw [h] at hc
+      by_cases hl : (f e).length > maxKeySize
+      · simp only [if_pos hl]; refine Or.inr ⟨?_, ?_⟩ <;> first | exact hl | rfl | trivial
+      · simp only [if_neg hl]; exact ⟨hc, Nat.le_of_not_gt hl⟩
+
 /-! ### the three ways `afterUpdate` is entered -/
 
 inductive Entry (b : C03.State) (id : Id) : Bool → Captured → Prop
@@ -182,20 +217,22 @@ def Acceptable (sch : Schema) (ents : Map Id Ent) (id : Id) (e : Ent) : Prop :=
   (sch.regName = true → e.name ≠ []) ∧
   ¬ (vName sch e ≠ [] ∧ HeldByOther (vName sch) ents id (vName sch e)) ∧
   ¬ (vAlias sch e ≠ [] ∧ HeldByOther (vAlias sch) ents id (vAlias sch e)) ∧
-  [] ∉ vRoles sch e
+  [] ∉ vRoles sch e ∧
+  ((vName sch e).length ≤ maxKeySize ∧ (vAlias sch e).length ≤ maxKeySize)
 
 /-- the errors the spec lists for storing `e` under `id`, as a proposition -/
 def Listed (sch : Schema) (ents : Map Id Ent) (id : Id) (e : Ent) (x : Err) : Prop :=
   (x = .nullNotAllowed ∧ sch.regName = true ∧ e.name = []) ∨
   (x = .dup ∧ vName sch e ≠ [] ∧ HeldByOther (vName sch) ents id (vName sch e)) ∨
   (x = .dup ∧ vAlias sch e ≠ [] ∧ HeldByOther (vAlias sch) ents id (vAlias sch e)) ∨
-  (x = .other ∧ [] ∈ vRoles sch e)
+  (x = .other ∧ [] ∈ vRoles sch e) ∨
+  (x = .other ∧ ((vName sch e).length > maxKeySize ∨ (vAlias sch e).length > maxKeySize))
 
 theorem nameStep_char {sch : Schema} {b : C03.State} {id : Id} {c : Bool} {cap : Captured} (e : Ent)
     (hi : BInv sch b) (hs : Entry b id c cap) :
     match nameStep sch c cap.name e.name id b.uName with
     | .ok un => UI (vName sch) (b.ents.insert id e) un ∧ (sch.regName = true → e.name ≠ []) ∧
-        ¬ (vName sch e ≠ [] ∧ HeldByOther (vName sch) b.ents id (vName sch e))
+        ¬ (vName sch e ≠ [] ∧ HeldByOther (vName sch) b.ents id (vName sch e)) ∧ (vName sch e).length ≤ maxKeySize
     | .error x => Listed sch b.ents id e x := by
   by_cases hreg : sch.regName = true
   · have hf : vName sch = fun e => e.name := by funext e; simp [vName, hreg]
@@ -204,22 +241,24 @@ theorem nameStep_char {sch : Schema} {b : C03.State} {id : Id} {c : Bool} {cap :
       | fresh h => exact .fresh h
       | update old h => rw [show (capture b id).name = vName sch old by simp [capture, h, evalName, hf]]; exact .update old h
       | recreate old h => rw [show (capture b id).name = vName sch old by simp [capture, h, evalName, hf]]; exact .recreate old h
-    have hc := uniqueAfter_char (nullable := false) e hi.uName hu
+    have hc := uniqueAfterK_char (nullable := false) e hi.uName hu
       (by intro _ old hold; rw [hf]; exact hi.namesNonEmpty hreg id old hold)
+      (fun old hold => (hi.keysFit id old hold).1)
     simp only [nameStep, hreg, if_true]
     rw [show e.name = vName sch e by simp [hf]]
-    cases h : uniqueAfter c false cap.name (vName sch e) id b.uName with
+    cases h : uniqueAfterK c false cap.name (vName sch e) id b.uName with
     | ok un =>
       rw [h] at hc
-      exact ⟨hc.1, fun _ => by simpa [hf] using hc.2.1 rfl, hc.2.2⟩
+      exact ⟨hc.1.1, fun _ => by simpa [hf] using hc.1.2.1 rfl, hc.1.2.2, hc.2⟩
     | error x =>
       rw [h] at hc
-      rcases hc with ⟨h1, _, h3⟩ | h1
+      rcases hc with (⟨h1, _, h3⟩ | h1) | ⟨h1, h2⟩
       · exact Or.inl ⟨h1, hreg, by simpa [hf] using h3⟩
       · exact Or.inr (Or.inl h1)
+      · exact Or.inr (Or.inr (Or.inr (Or.inr ⟨h1, Or.inl h2⟩)))
   · have hf : ∀ e, vName sch e = [] := by intro e; simp [vName, hreg]
     simp only [nameStep, hreg]
-    refine ⟨UI_blind hf hi.uName, ?_, by simp [hf]⟩
+    refine ⟨UI_blind hf hi.uName, ?_, by simp [hf], by simp [hf]⟩
     intro h
     first | exact absurd h hreg | cases h
 
@@ -227,7 +266,7 @@ theorem aliasStep_char {sch : Schema} {b : C03.State} {id : Id} {c : Bool} {cap 
     (hi : BInv sch b) (hs : Entry b id c cap) :
     match aliasStep sch c cap.alias (e.alias.getD []) id b.uAlias with
     | .ok ua => UI (vAlias sch) (b.ents.insert id e) ua ∧
-        ¬ (vAlias sch e ≠ [] ∧ HeldByOther (vAlias sch) b.ents id (vAlias sch e))
+        ¬ (vAlias sch e ≠ [] ∧ HeldByOther (vAlias sch) b.ents id (vAlias sch e)) ∧ (vAlias sch e).length ≤ maxKeySize
     | .error x => Listed sch b.ents id e x := by
   by_cases hreg : sch.regAlias = true
   · have hf : vAlias sch = fun e => e.alias.getD [] := by funext e; simp [vAlias, hreg]
@@ -236,21 +275,23 @@ theorem aliasStep_char {sch : Schema} {b : C03.State} {id : Id} {c : Bool} {cap 
       | fresh h => exact .fresh h
       | update old h => rw [show (capture b id).alias = vAlias sch old by simp [capture, h, evalAlias, hf]]; exact .update old h
       | recreate old h => rw [show (capture b id).alias = vAlias sch old by simp [capture, h, evalAlias, hf]]; exact .recreate old h
-    have hc := uniqueAfter_char (nullable := true) e hi.uAlias hu (by intro h; cases h)
+    have hc := uniqueAfterK_char (nullable := true) e hi.uAlias hu (by intro h; cases h)
+      (fun old hold => (hi.keysFit id old hold).2)
     simp only [aliasStep, hreg, if_true]
     rw [show e.alias.getD [] = vAlias sch e by simp [hf]]
-    cases h : uniqueAfter c true cap.alias (vAlias sch e) id b.uAlias with
+    cases h : uniqueAfterK c true cap.alias (vAlias sch e) id b.uAlias with
     | ok ua =>
       rw [h] at hc
-      exact ⟨hc.1, hc.2.2⟩
+      exact ⟨hc.1.1, hc.1.2.2, hc.2⟩
     | error x =>
       rw [h] at hc
-      rcases hc with ⟨_, h2, _⟩ | h1
+      rcases hc with (⟨_, h2, _⟩ | h1) | ⟨h1, h2⟩
       · cases h2
       · exact Or.inr (Or.inr (Or.inl h1))
+      · exact Or.inr (Or.inr (Or.inr (Or.inr ⟨h1, Or.inr h2⟩)))
   · have hf : ∀ e, vAlias sch e = [] := by intro e; simp [vAlias, hreg]
     simp only [aliasStep, hreg]
-    exact ⟨UI_blind hf hi.uAlias, by simp [hf]⟩
+    exact ⟨UI_blind hf hi.uAlias, by simp [hf], by simp [hf]⟩
 
 theorem rolesStep_char {sch : Schema} {b : C03.State} {id : Id} {c : Bool} {cap : Captured} (e : Ent)
     (hi : BInv sch b) (hs : Entry b id c cap) :
@@ -278,7 +319,7 @@ theorem rolesStep_char {sch : Schema} {b : C03.State} {id : Id} {c : Bool} {cap 
       exact ⟨h1.1, h1.2, setAfter_ok_nonempty h hold.2⟩
     | error x =>
       have h1 := setAfter_err h hold.2
-      exact Or.inr (Or.inr (Or.inr h1))
+      exact Or.inr (Or.inr (Or.inr (Or.inl h1)))
   · have hf : ∀ e, vRoles sch e = [] := by intro e; simp [vRoles, hreg]
     simp only [rolesStep, hreg]
     exact ⟨SI_blind hf hi.sRoles, hi.noEmptyKeys, by simp [hf]⟩
@@ -319,7 +360,7 @@ theorem afterUpdate_char {sch : Schema} {b : C03.State} {id : Id} {c : Bool} {ca
     simp only at hseq ⊢
     rw [hseq.1] at hn; rw [hseq.2.1] at ha; rw [hseq.2.2] at hr
     simp only at hn ha hr
-    refine ⟨⟨hn.1, ha.1, hr.1, hr.2.1, ?_, ?_, ?_, ?_⟩, by simp, by simp, hn.2.1, hn.2.2, ha.2, hr.2.2⟩
+    refine ⟨⟨hn.1, ha.1, hr.1, hr.2.1, ?_, ?_, ?_, ?_, ?_⟩, by simp, by simp, hn.2.1, hn.2.2.1, ha.2.1, hr.2.2, hn.2.2.2, ha.2.2⟩
     · intro hreg i e'; simp only [Map.lookup_insert]; split
       · intro h2; cases h2; exact hn.2.1 hreg
       · exact hi.namesNonEmpty hreg i e'
@@ -338,6 +379,9 @@ theorem afterUpdate_char {sch : Schema} {b : C03.State} {id : Id} {c : Bool} {ca
           | none => simp [hl] at hsome
           | some o => exact hi.entsBucket id o hl
         · exact hi.entsBucket i e'
+    · intro i e'; simp only [Map.lookup_insert]; split
+      · intro h2; cases h2; exact ⟨hn.2.2.2, ha.2.2⟩
+      · exact hi.keysFit i e'
 
 /-! ### preservation: create and update -/
 
@@ -604,7 +648,7 @@ theorem pass_first_lookups {sch : Schema} {s b : C03.State} {id : Id} {e : Ent} 
 
 theorem gone_erase {sch : Schema} {s : C03.State} {id : Id} (hi : BInv sch s) {b : C03.State} (hg : Gone sch b id)
     (hents : b.ents = s.ents) (hhas : b.hasEnts = s.hasEnts) : BInv sch { b with ents := b.ents.erase id } := by
-  refine ⟨hg.uName, hg.uAlias, hg.sRoles, hg.noEmptyKeys, ?_, ?_, ?_, ?_⟩
+  refine ⟨hg.uName, hg.uAlias, hg.sRoles, hg.noEmptyKeys, ?_, ?_, ?_, ?_, ?_⟩
   · intro hreg i e'; simp only [hents, Map.lookup_erase]; split
     · simp
     · exact hi.namesNonEmpty hreg i e'
@@ -615,6 +659,9 @@ theorem gone_erase {sch : Schema} {s : C03.State} {id : Id} (hi : BInv sch s) {b
   · intro i e'; simp only [hents, hhas, Map.lookup_erase]; split
     · simp
     · exact hi.entsBucket i e'
+  · intro i e'; simp only [hents, Map.lookup_erase]; split
+    · simp
+    · exact hi.keysFit i e'
 
 theorem inv_delete {sch : Schema} {s s' : State} {via : Sel} {id : Id} (hi : Inv sch s)
     (h : delete sch s via id = .ok s') : Inv sch s' := by
